@@ -50,7 +50,9 @@ def cases(tier, seed):
             base_res = [b0, 2 * b0]                              # several base coolers
         case = {"table": table, "mode": mode, "binsize": b0, "px": px, "resolutions": res, "base_res": base_res,
                 "chunk": rng.choice([1, 2, 5, 10 ** 6]), "nproc": 2 if F_h("m23@50", 23) == 9 else 1,
-                "tagged": F_h("tagged", 2) == 1}
+                "tagged": F_h("tagged", 2) == 1,
+                # the aggregate of the value column (max / min compose like sum, so "direct coarsening" stays well defined)
+                "agg": ["sum", "sum", "sum", "max", "min"][F_h("agg", 5)]}
         if F_h("m9@51", 9) == 6:
             case["via"] = "cli"
         if F_h("m6@53", 6) == 4:
